@@ -381,6 +381,9 @@ pub fn fmts<T: Debug + ?Sized>(v: &T) -> Vec<String> {
          format!("{:.2?}", v), format!("{:x?}", v), format!("{:#x?}", v), format!("{:08?}", v), format!("{:^+9.1?}", v)]
 }
 pub fn h<T: Hash + ?Sized>(v: &T) -> u64 { let mut s = DefaultHasher::new(); v.hash(&mut s); s.finish() }
+pub trait Src { type Item; }
+#[derive(Clone, Debug, Default, PartialEq, Eq, PartialOrd, Ord, Hash)] pub struct Sv;
+impl Src for Sv { type Item = i8; }
 '''
 
 C12_TRAITS = ['Clone', 'Debug', 'Default', 'PartialEq', 'Eq', 'PartialOrd', 'Ord', 'Hash']
@@ -389,7 +392,7 @@ C12_TRAITS = ['Clone', 'Debug', 'Default', 'PartialEq', 'Eq', 'PartialOrd', 'Ord
 def _c12_case(rng, idx):
     mod = f'c{idx}'
     tyname = rng.choice(['X', 'X', 'X', 'r#type', 'r#struct'])
-    shape = rng.choice(['struct', 'struct', 'enum', 'enum', 'unsized', 'lifetime', 'constgen', 'empty_enum', 'default_param'])
+    shape = rng.choice(['struct', 'struct', 'enum', 'enum', 'unsized', 'lifetime', 'constgen', 'empty_enum', 'default_param', 'assoc'])
     fields_pool = [('i8', ['0', '1', '-1']), ('bool', ['false', 'true']), ('(i8, bool)', ['(0, true)', '(1, false)']),
                    ('Option<i8>', ['None', 'Some(0)']), ('String', ['String::new()', 'String::from("a")'])]
     gen_decl, gen_use = '', ''
@@ -409,6 +412,13 @@ def _c12_case(rng, idx):
         gen_decl, gen_use = "<'a, T>", "<'static, i8>"
         fields_pool = [("&'a T", ['&Z0', '&Z1']), ('i8', ['0', '1']), ("&'a str", ['"a"', '"b"'])]
         traits = [t for t in traits if t != 'Default']
+        shape = rng.choice(['struct', 'enum'])
+    if shape == 'assoc':
+        # field types that mention the parameter only through an associated-type path (the standard derive bounds them too)
+        gen_decl, gen_use = '<T: Src>', '<Sv>'
+        # (the standard derive does not bound the fully qualified spelling `<T as Src>::Item`: not a shape it accepts)
+        fields_pool = [('T::Item', ['0', '1']), ('Option<T::Item>', ['None', 'Some(1)']),
+                       ('(T::Item, bool)', ['(0, true)', '(1, false)']), ('i8', ['0', '1'])]
         shape = rng.choice(['struct', 'enum'])
     if shape == 'constgen':
         gen_decl, gen_use = '<T, const N: usize>', '<i8, 2>'
